@@ -159,15 +159,42 @@ def prop_recover(case):
         dnorm = np.sqrt(sum(float((ds.data.values ** 2).sum()) for ds in data.values()))
         if sv[-1] < 1e-2 * dnorm:
             raise Discard("not identifiable (data insensitive to a parameter)")
+        if sv[-1] < 1e-3:
+            # scipy's termination tests are absolute (gradient norm): with tiny data the optimiser stops early by construction
+            raise Discard("absolute sensitivity below the optimiser's (absolute) termination tolerances")
+        # landscape gate: between start and truth the cost must decrease monotonically towards the truth (else the start is
+        # not "moderately perturbed" with respect to this model's landscape; a local optimiser owes nothing there)
+        free = [p.label for p in ftruth.all() if p.vary and p.expression is None]
+        cap2 = capture.open_objective(_scheme(fmodel, start, data, maximum_number_function_evaluations=1))
+        xs, xt = cap2.x0.copy(), None
+        labs2, xt, _, _ = ftruth.get_label_value_and_bounds_arrays(exclude_non_vary=True)
+        if list(labs2) != list(cap2.labels):
+            raise Discard("free label order differs")
+        costs = []
+        for a in np.linspace(0.0, 1.0, 13):
+            v = cap2(xs + a * (np.asarray(xt) - xs))
+            costs.append(float(v @ v))
+        if any(c2 > c1 * (1 + 1e-9) + 1e-300 for c1, c2 in zip(costs[:-1], costs[1:])):
+            raise Discard("cost not monotone between start and truth (multi-modal landscape)")
         with expect_ok("recover.optimize"):
-            res = optimize(_scheme(fmodel, start, data, maximum_number_function_evaluations=60, ftol=1e-12, xtol=1e-12, gtol=1e-12), verbose=False, raise_exception=True)
+            res = optimize(_scheme(fmodel, start, data, maximum_number_function_evaluations=60, ftol=1e-14, xtol=1e-14, gtol=1e-14), verbose=False, raise_exception=True)
         dmax = max(float(np.abs(ds.data.values).max()) for ds in data.values())
         # local minima are not excluded by the statement's "identifiable": gate on having reached the zero residual
         worst = 0.0
+        rt, rq = [], []
         for p in ftruth.all():
             if p.vary and p.expression is None:
                 q = res.optimized_parameters.get(p.label)
-                worst = max(worst, abs(q.value - p.value) / max(abs(p.value), 1e-3))
+                if p.label.startswith("rates.") and p.label.split(".")[1].startswith("s"):
+                    rt.append(p.value)  # decay rates are identifiable up to a permutation of the compartments
+                    rq.append(q.value)
+                else:
+                    worst = max(worst, abs(q.value - p.value) / max(abs(p.value), 1e-3))
+        for a, b in zip(sorted(rt), sorted(rq)):
+            worst = max(worst, abs(a - b) / max(abs(a), 1e-3))
+        check(res.cost <= 0.5 * costs[0] * (1 + 1e-9) + 1e-300, "recover.cost_increased", lambda: f"cost {res.cost:.3e} > start cost {0.5*costs[0]:.3e}")
+        if worst > 1e-4 and res.cost <= 1e-24 * max(dnorm * dnorm, 1e-300):
+            raise Discard("another parameter set reproduces the data exactly (not identifiable)")
         check(worst <= 1e-4 * max(1.0, sv[0] / sv[-1] / 10), "recover.returns_to_truth", lambda: f"max relative parameter error {worst:.3e} (cond J {sv[0]/sv[-1]:.1e}, cost {res.cost:.3e}, nfev {res.number_of_function_evaluations})")
     return {"nontrivial": nontrivial(case), "tags": tags_of(case)}
 
@@ -184,7 +211,10 @@ PROPERTY = Property(
     ),
     subs=[
         Sub("reproduce", prop=prop_reproduce, strategy=lambda: kinetic.kinetic_cases(), budget={"quick": 160, "thorough": 8000}),
-        Sub("recover", prop=prop_recover, strategy=lambda: kinetic.kinetic_cases(max_datasets=2), budget={"quick": 60, "thorough": 3000}),
+        Sub("recover", prop=prop_recover, strategy=lambda: kinetic.kinetic_cases(max_datasets=2, identifiable=True, extras_allowed=False),
+            budget={"quick": 96, "thorough": 5000},
+            doc="identifiable family by construction: decay models (sequential / parallel / general) with no or a resolved Gaussian IRF on dense-early "
+                "time axes; gates: cond(J) <= 1e4, sensitivity, cost monotone between start and truth; rates compared as a sorted set"),
         Sub("noise", prop=prop_noise, strategy=lambda: kinetic.kinetic_cases(max_datasets=2), budget={"quick": 60, "thorough": 3000}),
     ],
     assumptions=["conditioning gates: clp matrices cond <= 1e6, recovery only for cond(J) <= 1e4 at the truth (else discarded and counted)"],
